@@ -240,3 +240,47 @@ pub fn addresses(e: &Expression, out: &mut Vec<(String, u64)>) {
         _ => {}
     }
 }
+
+/// Structural hash (the library's `Hash` for `Expression` hashes interned child pointers, which
+/// is neither stable across processes nor a content hash).
+pub fn structural_hash(e: &Expression) -> u64 {
+    use std::hash::{Hash, Hasher};
+    fn go<H: Hasher>(e: &Expression, h: &mut H) {
+        match e {
+            Expression::Address(m) => {
+                0u8.hash(h);
+                m.name.hash(h);
+                m.index.hash(h);
+            }
+            Expression::FunctionCall(f) => {
+                1u8.hash(h);
+                (f.function as u8).hash(h);
+                go(&f.expression, h);
+            }
+            Expression::Infix(i) => {
+                2u8.hash(h);
+                (i.operator as u8).hash(h);
+                go(&i.left, h);
+                go(&i.right, h);
+            }
+            Expression::Number(n) => {
+                3u8.hash(h);
+                n.re.to_bits().hash(h);
+                n.im.to_bits().hash(h);
+            }
+            Expression::PiConstant() => 4u8.hash(h),
+            Expression::Prefix(p) => {
+                5u8.hash(h);
+                (p.operator as u8).hash(h);
+                go(&p.expression, h);
+            }
+            Expression::Variable(v) => {
+                6u8.hash(h);
+                v.hash(h);
+            }
+        }
+    }
+    let mut h = std::collections::hash_map::DefaultHasher::new();
+    go(e, &mut h);
+    h.finish()
+}
